@@ -91,6 +91,8 @@ type Machine struct {
 	FuncsSeen map[*ssa.Function]bool
 	events []string
 	objs map[string]value
+	Params map[string]int
+	fallback func() []*sym.Solver
 }
 
 func NewProgram(prog *ssa.Program, repoPath string) *Program {
